@@ -348,7 +348,7 @@ func (a *FuncAnalysis) fixpoint() {
 						continue
 					}
 					s := outs[p.Index]
-					if g := a.edge[k]; len(g) > 0 {
+					if g := a.edge[k]; len(g) > 0 || len(a.derived) > 0 {
 						s = s.Clone()
 						for _, f := range g {
 							s.Add(f)
